@@ -609,6 +609,7 @@ type Frame struct {
 	panics     []*Term // reach conditions of panics (for contracts: not a normal return)
 	oldEnv     *evalEnv
 	assertDone map[int]bool
+	pendingInv map[*ssa.BasicBlock]*pendingLoop
 	args       []Val
 	rangeCount map[*ssa.Range]*Term // ghost iteration counter of range-over-string loops
 }
@@ -778,7 +779,7 @@ func loopOrdinals(fn *ssa.Function) map[*ssa.BasicBlock]int {
 
 // encodeFunc symbolically executes fn from state `in`.
 func (e *Enc) encodeFunc(fn *ssa.Function, args []Val, bindings []Val, in State, parent *Frame, con *FuncContract, setup func(fr *Frame)) ([]*Term, State, *Frame) {
-	fr := &Frame{fn: fn, vals: map[ssa.Value]Val{}, out: map[*ssa.BasicBlock]State{}, edge: map[[2]*ssa.BasicBlock]*Term{}, parent: parent, con: con, rangeCount: map[*ssa.Range]*Term{}, assertDone: map[int]bool{}}
+	fr := &Frame{fn: fn, vals: map[ssa.Value]Val{}, out: map[*ssa.BasicBlock]State{}, edge: map[[2]*ssa.BasicBlock]*Term{}, parent: parent, con: con, rangeCount: map[*ssa.Range]*Term{}, assertDone: map[int]bool{}, pendingInv: map[*ssa.BasicBlock]*pendingLoop{}}
 	fr.loops = loopOrdinals(fn)
 	fr.inlined = parent != nil && con == nil
 	fr.args = args
@@ -1023,41 +1024,75 @@ func (e *Enc) loopFrame(fr *Frame, st *State, regs []string) *Term {
 	return e.tb.And(cs...)
 }
 
+// backEdgeCheck collects, per loop and invariant, the proof obligation "preserved along this back edge"; the
+// obligations of all back edges of a loop are conjoined into one (named by loop and invariant only, so that
+// restructuring the loop body does not rename them) and emitted when the last back edge has been reached.
 func (e *Enc) backEdgeCheck(fr *Frame, p, head *ssa.BasicBlock, st State) {
+	tb := e.tb
 	ord := fr.loops[head]
 	invs := e.loopInvs(fr, ord)
+	pend := fr.pendingInv[head]
+	if pend == nil {
+		pend = &pendingLoop{conj: map[string][]*Term{}, text: map[string]string{}}
+		for _, pp := range head.Preds {
+			if isBackEdge(pp, head) {
+				pend.want++
+			}
+		}
+		fr.pendingInv[head] = pend
+	}
+	add := func(label, text string, t *Term) {
+		if _, ok := pend.conj[label]; !ok {
+			pend.order = append(pend.order, label)
+		}
+		pend.conj[label] = append(pend.conj[label], tb.Imp(st.reach, t))
+		pend.text[label] = text
+	}
 	if regs := e.loopFrameRegs(fr, e.loopWrites(fr, head)); len(regs) > 0 {
-		if f := e.loopFrame(fr, &st, regs); f != nil && !e.tb.isTrue(f) {
-			e.oblige("loop-preserved", fmt.Sprintf("loop%d.frame%s", ord, e.edgeLabel(fr, p)), &st, f, token.NoPos).Text = "implicit invariant: the function's frame (assigns clause) is preserved by the loop body"
+		if f := e.loopFrame(fr, &st, regs); f != nil && !tb.isTrue(f) {
+			add(fmt.Sprintf("loop%d.frame", ord), "implicit invariant: the function's frame (assigns clause) is preserved by the loop body", f)
 		}
 	}
-	if len(invs) == 0 {
-		return
-	}
-	saved := map[*ssa.Phi]Val{}
-	for _, in := range head.Instrs {
-		if phi, ok := in.(*ssa.Phi); ok {
-			saved[phi] = fr.vals[phi]
-			for i, pp := range head.Preds {
-				if pp == p {
-					fr.vals[phi] = e.val(fr, phi.Edges[i])
+	if len(invs) > 0 {
+		saved := map[*ssa.Phi]Val{}
+		for _, in := range head.Instrs {
+			if phi, ok := in.(*ssa.Phi); ok {
+				saved[phi] = fr.vals[phi]
+				for i, pp := range head.Preds {
+					if pp == p {
+						fr.vals[phi] = e.val(fr, phi.Edges[i])
+					}
 				}
 			}
 		}
-	}
-	for k, inv := range invs {
-		env := e.envAt(fr, &st, head)
-		t, err := env.evalBool(inv.expr)
-		if err != nil {
-			e.contractError(fr, fmt.Sprintf("loop%d.inv%d", ord, k+1), err)
-			continue
+		for k, inv := range invs {
+			env := e.envAt(fr, &st, head)
+			t, err := env.evalBool(inv.expr)
+			if err != nil {
+				e.contractError(fr, fmt.Sprintf("loop%d.inv%d", ord, k+1), err)
+				continue
+			}
+			add(fmt.Sprintf("loop%d.inv%d", ord, k+1), inv.text, t)
 		}
-		q := e.oblige("loop-preserved", fmt.Sprintf("loop%d.inv%d%s", ord, k+1, e.edgeLabel(fr, p)), &st, t, token.NoPos, e.inputVals()...)
-		q.Text = inv.text
+		for phi, v := range saved {
+			fr.vals[phi] = v
+		}
 	}
-	for phi, v := range saved {
-		fr.vals[phi] = v
+	pend.seen++
+	if pend.seen == pend.want {
+		all := State{reach: tb.True(), heap: map[string]*Term{}}
+		for _, label := range pend.order {
+			q := e.oblige("loop-preserved", label, &all, tb.And(pend.conj[label]...), token.NoPos, e.inputVals()...)
+			q.Text = pend.text[label]
+		}
 	}
+}
+
+type pendingLoop struct {
+	want, seen int
+	order      []string
+	conj       map[string][]*Term
+	text       map[string]string
 }
 
 func (e *Enc) loopInvs(fr *Frame, ord int) []clause {
